@@ -50,7 +50,11 @@ try:
         rc1, o1 = sh("go test -vet=off -count=1 -run 'TestSeed' %s 2>&1 | tail -15" % sub, cwd=wt, timeout=900)
         res["demo_with_patch"] = "FAIL (as intended)" if "FAIL" in o1 else "PASS (demo does not show the breakage):\n" + o1[-400:]
         os.remove(demo_dst)
-    sh("rsync -a --exclude work --exclude .git --exclude seeded /verif/ %s/" % vc)
+    # the checks are taken from the last all-green snapshot when there is one (sub-agents' work in progress in
+    # /verif must not decide the verdict)
+    snap = os.environ.get("VERIF_SNAPSHOT", "/tmp/verif_good" if os.path.isdir("/tmp/verif_good") else "/verif")
+    res["checks_from"] = snap
+    sh("rsync -a --exclude work --exclude .git --exclude seeded %s/ %s/" % (snap, vc))
     res["checks"] = {}
     for c in checks:
         t = time.time()
